@@ -99,3 +99,55 @@ Theorem log_after_strip_refuted :
 Proof.
   exists (fun b => remove_byte ESC b), [[27; 91; 109; 97]]. vm_compute. discriminate.
 Qed.
+
+(* ---- the whole session (Driver.open / AsyncDriver.open) ---- *)
+Lemma sess_log_reads : forall strip k existing chunks sink,
+  sess_log strip k existing sink (map EvRead chunks) = snd (chan_session strip true sink chunks).
+Proof.
+  induction chunks as [|c rest IH]; intro sink; [reflexivity|].
+  cbn [map sess_log]. rewrite IH, chan_session_cons.
+  destruct (chan_read strip true sink c) as [o s'] eqn:E. cbn [snd].
+  destruct (chan_session strip true s' rest) as [os s''] eqn:E2. reflexivity.
+Qed.
+
+Lemma sess_log_app : forall strip k existing a b sink,
+  sess_log strip k existing sink (a ++ b) = sess_log strip k existing (sess_log strip k existing sink a) b.
+Proof.
+  induction a as [|e a IH]; intros b sink; [reflexivity|].
+  destruct e; cbn [app sess_log]; apply IH.
+Qed.
+
+(* channel.open() before the first read: the sink holds every byte of the session, login included *)
+Theorem whole_session_exact : forall strip k existing sink0 chunks,
+  sess_log strip k existing sink0 (EvOpen :: map EvRead chunks) =
+  match open_sink k existing with
+  | None => None
+  | Some s0 => Some (s0 ++ remove_byte CR (concat chunks))
+  end.
+Proof.
+  intros. cbn [sess_log]. rewrite sess_log_reads. apply channel_log_exact.
+Qed.
+
+(* ... and reads before channel.open() never reach it: the log is that of the later reads alone *)
+Theorem late_open_loses : forall strip k existing pre post,
+  sess_log strip k existing None (map EvRead pre ++ EvOpen :: map EvRead post) = chan_log strip k existing post.
+Proof.
+  intros. rewrite sess_log_app. cbn [sess_log]. rewrite sess_log_reads. reflexivity.
+Qed.
+
+Theorem late_open_refuted :
+  exists pre post,
+    sess_log (fun b => b) SBytesIO [] None (map EvRead pre ++ EvOpen :: map EvRead post)
+    <> Some (remove_byte CR (concat (pre ++ post))).
+Proof. exists [[85; 115; 101; 114; 58; 32]], [[35]]. vm_compute. discriminate. Qed.
+
+Example whole_session_example :
+  sess_log (fun b => b) (SFile false) [111] None (EvOpen :: map EvRead [[85; 58; 13; 10]; [80; 58]; [35]])
+  = Some [85; 58; 10; 80; 58; 35].
+Proof. vm_compute. reflexivity. Qed.
+
+Example open_before_reads_examples :
+  open_before_reads [1; 2; 3; 4; 5; 6; 7]%nat = true /\ open_before_reads [1; 2; 3; 5; 6; 7]%nat = true
+  /\ open_before_reads [1; 2; 5; 3; 6; 7]%nat = false /\ open_before_reads [1; 2; 6; 7]%nat = false
+  /\ open_before_reads [1; 2; 0; 3]%nat = false.
+Proof. vm_compute. repeat split. Qed.
